@@ -65,8 +65,23 @@ var c12Vars = func() []efivar.Efivar {
 		{Name: "VerifPlainB", GUID: g1, Attributes: 7},
 		efivar.BootOrder,
 		{Name: "VerifZeroAttrs", GUID: g1},
+		// index 8: the db variable as a caller assembles it (same name, same GUID value, own GUID object)
+		func() efivar.Efivar { g := *efivar.Db.GUID; return efivar.Efivar{Name: "db", GUID: &g, Attributes: efivar.Db.Attributes} }(),
+		// 9, 10: two variables of one vendor whose names differ in case only
+		{Name: "VerifCase", GUID: g1, Attributes: 7},
+		{Name: "verifcase", GUID: g1, Attributes: 7},
 	}
 }()
+
+// c12File maps a variable index to the index that owns its file (the caller-assembled db is db).
+func c12File(vi int) int {
+	if vi == 8 {
+		return 2
+	}
+	return vi
+}
+
+func c12IsDB(vi int) bool { return vi < 4 || vi == 8 }
 
 func c12db(n, salt int) *signature.SignatureDatabase {
 	db := signature.NewSignatureDatabase()
@@ -128,7 +143,7 @@ func c12RunHistory(c *WCase, res *WResult) {
 		for vi, val := range h.Pre {
 			v := c12Vars[vi]
 			m[varPath(v.Name, v.GUID.Format())] = &fstest.MapFile{Data: withAttrs(uint32(v.Attributes), val), Mode: 0o644}
-			model[vi] = val
+			model[c12File(vi)] = val
 		}
 		tf = tf.With(m)
 	}
@@ -151,14 +166,14 @@ func c12RunHistory(c *WCase, res *WResult) {
 				fail(i, "write-error", "WriteVar: %v", err)
 				return
 			}
-			model[op.Var] = op.Bytes
+			model[c12File(op.Var)] = op.Bytes
 		case "db":
 			db := c12dbArr(op.N, op.Salt, op.Rev, op.Split)
 			if err := e.WriteVar(v, db); err != nil {
 				fail(i, "write-error", "WriteVar(database ×%d): %v", op.N, err)
 				return
 			}
-			model[op.Var] = db.Bytes()
+			model[c12File(op.Var)] = db.Bytes()
 		case "signed":
 			db := c12dbArr(op.N, op.Salt, op.Rev, op.Split)
 			k := keys.Get(op.Key)
@@ -167,7 +182,7 @@ func c12RunHistory(c *WCase, res *WResult) {
 				fail(i, "write-error", "WriteSignedUpdate(database ×%d): %v", op.N, err)
 				return
 			}
-			model[op.Var] = db.Bytes()
+			model[c12File(op.Var)] = db.Bytes()
 		case "failwrite":
 			if ffs == nil {
 				continue
@@ -182,7 +197,7 @@ func c12RunHistory(c *WCase, res *WResult) {
 				return
 			}
 		case "get":
-			want, ok := model[op.Var]
+			want, ok := model[c12File(op.Var)]
 			var spy spyVal
 			err := e.GetVar(v, &spy)
 			if !ok {
@@ -202,7 +217,7 @@ func c12RunHistory(c *WCase, res *WResult) {
 				return
 			}
 		case "getdb":
-			want, ok := model[op.Var]
+			want, ok := model[c12File(op.Var)]
 			var db *signature.SignatureDatabase
 			var err error
 			switch op.Var {
@@ -210,7 +225,7 @@ func c12RunHistory(c *WCase, res *WResult) {
 				db, err = e.GetPK()
 			case 1:
 				db, err = e.GetKEK()
-			case 2:
+			case 2, 8:
 				db, err = e.Getdb()
 			case 3:
 				db, err = e.Getdbx()
@@ -238,6 +253,30 @@ func c12RunHistory(c *WCase, res *WResult) {
 	res.Val = fmt.Sprintf("ok reads=%d", reads)
 }
 
+// c12Directed: short histories aimed at neighbouring variables — names that differ in case only,
+// and the db variable written through a definition the caller assembled.
+var c12Directed = func() [][]c12Op {
+	x := []byte("value-of-the-neighbour")
+	y := []byte("other")
+	var out [][]c12Op
+	for _, p := range [][2]int{{9, 10}, {10, 9}} {
+		a, b := p[0], p[1]
+		out = append(out,
+			[]c12Op{{Op: "raw", Var: a, Bytes: x}, {Op: "raw", Var: b, Bytes: nil}, {Op: "get", Var: a}, {Op: "get", Var: b}},
+			[]c12Op{{Op: "raw", Var: a, Bytes: x}, {Op: "raw", Var: b, Bytes: y}, {Op: "get", Var: a}, {Op: "get", Var: b}, {Op: "raw", Var: a, Bytes: nil}, {Op: "get", Var: b}, {Op: "get", Var: a}},
+			[]c12Op{{Op: "raw", Var: a, Bytes: x}, {Op: "get", Var: a}, {Op: "raw", Var: b, Bytes: y[:1]}, {Op: "get", Var: a}},
+		)
+	}
+	for _, sp := range []bool{false, true} {
+		out = append(out,
+			[]c12Op{{Op: "signed", Var: 8, N: 3, Salt: 1, Split: sp}, {Op: "get", Var: 8}, {Op: "getdb", Var: 8}, {Op: "get", Var: 2}, {Op: "getdb", Var: 2}},
+			[]c12Op{{Op: "db", Var: 2, N: 4, Salt: 2}, {Op: "signed", Var: 8, N: 2, Salt: 1, Rev: sp}, {Op: "getdb", Var: 2}, {Op: "get", Var: 2}},
+			[]c12Op{{Op: "signed", Var: 2, N: 3, Salt: 1}, {Op: "db", Var: 8, N: 1, Salt: 3}, {Op: "get", Var: 2}, {Op: "signed", Var: 8, N: 0, Salt: 1}, {Op: "get", Var: 2}, {Op: "get", Var: 8}},
+		)
+	}
+	return out
+}()
+
 func checkC12(r *mon.Run) {
 	r.Rule = "seeded histories (1..30 ops) over PK, KEK, db, dbx, two ordinary variables and BootOrder: WriteVar(raw bytes), WriteVar(database of n entries), WriteSignedUpdate(database), GetVar(raw spy), GetPK/GetKEK/Getdb/Getdbx; value sizes grow, shrink (incl. to empty) and repeat, interleaved across variables, stores created empty or pre-populated through With(); every read after a write is compared with a per-variable register model (signed writes: the payload). distinct = op sequences with >=1 shrinking overwrite or signed write"
 	r.Assume("Open() once per history (each call deliberately builds a fresh store); APPEND_WRITE not used; runs in a sandboxed child because a library exit must be observable")
@@ -253,6 +292,9 @@ func checkC12(r *mon.Run) {
 			h.Pre = map[int][]byte{}
 			for k := 0; k < 1+rng.Intn(3); k++ {
 				vi := rng.Intn(len(c12Vars))
+				if vi == 8 {
+					vi = 2
+				}
 				if vi < 4 {
 					h.Pre[vi] = c12db(1+rng.Intn(4), 0x80+k).Bytes()
 				} else {
@@ -268,31 +310,47 @@ func checkC12(r *mon.Run) {
 		}
 		steps := 1 + rng.Intn(30)
 		var d []string
-		nv := 2 + rng.Intn(len(c12Vars)-1)
+		// the variables of this history: a subset of 2..6, so that few variables meet often
+		perm := rng.Perm(len(c12Vars))
+		vs := perm[:2+rng.Intn(5)]
+		if rng.Intn(4) == 0 {
+			vs = append(vs, 9, 10) // the case-only pair together
+		}
+		if rng.Intn(4) == 0 {
+			vs = append(vs, 2, 8) // db and its caller-assembled twin together
+		}
+		if i < len(c12Directed) {
+			h = c12Hist{Ops: c12Directed[i]}
+			steps = 0
+			for _, op := range h.Ops {
+				d = append(d, fmt.Sprintf("%s:%d", op.Op, op.Var))
+			}
+			interesting[i] = true
+		}
 		for s := 0; s < steps; s++ {
-			vi := rng.Intn(nv)
+			vi := vs[rng.Intn(len(vs))]
 			var op c12Op
 			op.Var = vi
 			switch k := rng.Intn(10); {
 			case k < 4: // read
 				op.Op = "get"
-				if vi < 4 && rng.Intn(2) == 0 {
+				if c12IsDB(vi) && rng.Intn(2) == 0 {
 					op.Op = "getdb"
 				}
-			case k < 6 && vi < 4:
+			case k < 6 && c12IsDB(vi):
 				op.Op = "signed"
 				op.N = rng.Intn(6)
 				op.Salt = 1 + rng.Intn(3) // few salts: the same entries come back in other arrangements
 				op.Rev, op.Split = rng.Intn(2) == 0, rng.Intn(3) == 0
 				op.Key = rng.Intn(4)
 				interesting[i] = true
-			case k < 8 && vi < 4:
+			case k < 8 && c12IsDB(vi):
 				op.Op = "db"
 				op.N = rng.Intn(6)
 				op.Salt = 1 + rng.Intn(3)
 				op.Rev, op.Split = rng.Intn(2) == 0, rng.Intn(3) == 0
 			default:
-				if vi < 4 {
+				if c12IsDB(vi) {
 					op.Op = "db"
 					op.N = rng.Intn(4)
 					op.Salt = s
@@ -314,14 +372,14 @@ func checkC12(r *mon.Run) {
 				if op.N > 0 {
 					nl = 28 + 48*op.N
 				}
-				if prev, ok := last[vi]; ok && nl < prev {
+				if prev, ok := last[c12File(vi)]; ok && nl < prev {
 					interesting[i] = true
 					r.Count("shrinking_overwrites_generated", 1)
 					if nl == 0 {
 						r.Count("shrink_to_empty_generated", 1)
 					}
 				}
-				last[vi] = nl
+				last[c12File(vi)] = nl
 			} else if op.Op == "failwrite" {
 				r.Count("failed_writes_generated", 1)
 			} else if op.Op == "raw" {
